@@ -513,7 +513,7 @@ def trace_oracle(case, rec=None):
 
 # --- plan ---------------------------------------------------------------------
 def plan(tier, seed):
-    n = 6000 if tier == 'quick' else 300000
+    n = 6000 if tier == 'quick' else 150000      # (300 000 took over two hours on a busy machine)
     nsh = 16 if tier == 'quick' else 64
     shards = [{'kind': 'lockstep', 'tier': tier, 'n': n // nsh, 'seed': shard_seed(seed, PROPERTY, i)} for i in range(nsh)]
     nt = 240 if tier == 'quick' else 6000
